@@ -92,3 +92,52 @@ package peering
 //@   requires nonnil(link)
 //@ func Peering.copyLinksWithLocking
 //@   ensures copy: true
+
+// ---- peering handshake (C04) --------------------------------------------------------------------------
+//@ func makeUniverseAuth
+//@   option trusted pure
+
+//@ type peeringRequestState
+//@   invariant wired [C13]: self.peering != nil
+
+// A peering request is answered only if: it is not from ourselves, it is a RouterPing whose frame source equals the
+// presented address, the presented identity verifies (address = hash(key), fd00::/8), there is no link to that router
+// yet, the frame's signature verifies under the session bound to that address, link version, universe and challenge
+// size are right. The response echoes exactly the presented challenge.
+//@ func peeringRequestState.handlePeeringRequest
+//@   option errbreaks
+//@   requires nonnil(in) && in.data != nil && in.builder != nil && usable(in)
+//@   ensures accepted-only-if [C04,C01]: result1 == nil ==> (old(state.step) == 1 && remoteAddr.verified && r.Address.IP == state.remoteIP && state.session != nil && session == state.session && in.unsealedBy == state.session && r.LinkVersion == 1 && r.Universe == state.peering.instance.Config().Router.Universe && len(r.Challenge) >= 16)
+//@   ensures session-established [C04]: result1 == nil ==> old(state.step) == 1 && state.session != nil && in.unsealedBy == state.session
+//@   ensures response-echoes-challenge [C04]: result1 == nil ==> resp.Challenge == r.Challenge
+//@   ensures no-self-peering [C04]: result1 == nil ==> state.remoteIP != state.peering.instance.Identity().IP
+//@   ensures step-kept [C04]: state.step == old(state.step)
+//@   ensures in-usable [C13]: usable(in)
+//@   callsite state.State.AddRouter only-verified-identity [C01,C04]: arg1 == remoteAddr
+
+// A peering response is accepted only if it verifies under the session of the remote router, comes from that router
+// and is addressed to us, echoes this connection's challenge (constant-time compare #1) and - if we hold a universe
+// secret - carries the matching universe auth (constant-time compare #2).
+//@ func peeringRequestState.handlePeeringResponse
+//@   option errbreaks
+//@   requires nonnil(in) && in.data != nil && in.builder != nil && usable(in) && state.session != nil
+//@   callsite ConstantTimeCompare#1 this-connections-challenge [C04]: base(arg0) == base(state.challenge) && off(arg0) == off(state.challenge) && len(arg0) == len(state.challenge) && base(arg1) == base(r.Challenge) && len(arg1) == len(r.Challenge)
+//@   ensures accepted-only-if [C04]: result1 == nil ==> (old(state.step) == 2 && in.unsealedBy == state.session && ctcmp_ok_1)
+//@   ensures secret-holders-check-universe-auth [C04]: result1 == nil && state.peering.instance.Config().Router.UniverseSecret != "" ==> ctcmp_ok_2
+//@   ensures step-kept [C04]: state.step == old(state.step) && (old(state.session) != nil ==> state.session == old(state.session))
+//@   ensures in-usable [C13]: usable(in)
+
+//@ func peeringRequestState.handlePeeringAck
+//@   option errbreaks
+//@   requires nonnil(in) && in.data != nil && in.builder != nil && usable(in) && state.session != nil
+//@   ensures accepted-only-if [C04]: result == nil ==> (old(state.step) == 3 && in.unsealedBy == state.session)
+//@   ensures step-kept [C04]: state.step == old(state.step) && (old(state.session) != nil ==> state.session == old(state.session))
+//@   ensures in-usable [C13]: usable(in)
+
+// The step counter advances exactly on success; after an error the exchange never succeeds later
+// (handleSetupMessages returns on the first error).
+//@ func peeringRequestState.handle
+//@   option errbreaks
+//@   requires nonnil(in) && in.data != nil && in.builder != nil && usable(in) && (state.step >= 2 ==> state.session != nil)
+//@   ensures step-advances-on-success-only [C04]: (err == nil ==> state.step == old(state.step) + 1 && old(state.step) >= 1 && old(state.step) <= 3) && (err != nil ==> state.step == old(state.step))
+//@   ensures session-set [C04]: err == nil ==> state.session != nil
